@@ -103,7 +103,7 @@ func containsAny(s string, subs ...string) bool {
 // Run01 is the C01 monitor.
 func Run01(r *ev.Run) {
 	r.Rule = "case i = f(seed,i): hostile EncoderConfig x entry x With-chain x call-site fields; each encoded twice (EncodeEntry and IO core over a recording sink); distinct = distinct (config pattern, With depth, field count, fault count) shapes; non-trivial = at least one field or one hostile ingredient"
-	n := r.N(12000, 400000)
+	n := r.N(60000, 600000)
 	var mu sync.Mutex
 	maxLine := 0
 	var bytesValidated int64
@@ -205,6 +205,31 @@ func keys(v *jsonv.Value) []string {
 	return ks
 }
 
+var errSkipped = fmt.Errorf("skipped")
+
+func sanitizedDup(n *ref.Node) bool {
+	if n == nil {
+		return false
+	}
+	seen := map[string]bool{}
+	for _, m := range n.Members {
+		k := ref.Sanitize(m.Key)
+		if seen[k] {
+			return true
+		}
+		seen[k] = true
+		if sanitizedDup(m.Val) {
+			return true
+		}
+	}
+	for _, e := range n.Elems {
+		if sanitizedDup(e) {
+			return true
+		}
+	}
+	return false
+}
+
 // mapCompare feeds the same fields to MapObjectEncoder and compares nesting and values.
 func mapCompare(c *gen.Case, line []byte) error {
 	v, perr, _ := jsonv.CheckLine(line, c.Cfg.EffLineEnding())
@@ -216,6 +241,11 @@ func mapCompare(c *gen.Case, line []byte) error {
 		f.F.AddTo(m)
 	}
 	exp := ref.FromGo(m.Fields)
+	if sanitizedDup(exp) {
+		// two different raw keys of one object become the same key once invalid UTF-8 is replaced by
+		// U+FFFD: the map keeps both, the JSON text shows a duplicate key - not comparable this way
+		return errSkipped
+	}
 	// the decoded line also has metadata and the stack: compare only the members the map knows
 	rp := c.Cfg.Repr()
 	rp.Ordered = false
@@ -236,7 +266,7 @@ func mapCompare(c *gen.Case, line []byte) error {
 // Run02 is the C02 monitor.
 func Run02(r *ev.Run) {
 	r.Rule = "case i = f(seed,i): decodable EncoderConfig (built-in or nil sub-encoders) x entry x With-chain x fields; line decoded by the independent parser and compared member by member, in order, with the generator-carried expected tree; every third case uses unique keys and is also compared with zapcore.MapObjectEncoder; distinct = distinct (config, shape) keys; non-trivial = has at least one field"
-	n := r.N(12000, 400000)
+	n := r.N(60000, 600000)
 	parallel(n, func(i int) {
 		id := fmt.Sprintf("c02/%d", i)
 		if !r.Want(id) {
@@ -286,7 +316,10 @@ func Run02(r *ev.Run) {
 			}
 			if unique && c.Faults == 0 && !via {
 				r.Count("map_encoder_comparisons", 1)
-				if err := mapCompare(c, line); err != nil {
+				if err := mapCompare(c, line); err == errSkipped {
+					r.Count("map_encoder_comparisons", -1)
+					r.Count("map_encoder_comparisons_skipped_keys_collide_after_utf8_replacement", 1)
+				} else if err != nil {
 					w := c.Describe()
 					w["line"] = string(clip(line))
 					r.Violate(ev.Violation{Case: id, Class: "map-encoder-mismatch", Msg: fmt.Sprintf("JSON nesting/values differ from MapObjectEncoder: %v", err), Witness: w})
